@@ -89,6 +89,7 @@ type FuncCtx struct {
 	pendingQueries []pendingQ
 	spec           *specCtx
 	clauseErr      string
+	allocs         map[string][]string
 	axiomsDone     map[string]bool
 	locked         bool
 	relock         func(env *Env)
